@@ -168,6 +168,21 @@ def run(run):
             got = try_(lambda: (int(r2.x.sum().compute()), len(r2), r2.npartitions))
             if got[0] == "raise" or got[1][0] != int(b.x.sum()) or got[1][1] != 12:
                 run.violation("re-reading a rewritten dataset (%s) does not reflect the new contents: %s (old sum %s, len %s)" % (reader or "fsspec", got[1], v1, n1), {"kind": "rewrite", "reader": str(reader)})
+            # rewrite IN PLACE: same directory, same file names, same number of files (no overwrite=True, no new directory entry)
+            path2 = os.path.join(tmp, "inplace_%s" % ("arrow" if reader else "fsspec"))
+            a2 = pd.DataFrame({"x": range(100)}, index=pd.Index(range(100), name="i"))
+            rt.dx.from_pandas(a2, npartitions=2).to_parquet(path2)
+            q1 = rt.dx.read_parquet(path2, calculate_divisions=True, **reader)
+            obs1 = (len(q1), q1.divisions, int(q1.x.sum().compute()))
+            time.sleep(0.05)
+            b2 = pd.DataFrame({"x": range(40)}, index=pd.Index(range(1000, 1040), name="i"))
+            rt.dx.from_pandas(b2, npartitions=2).to_parquet(path2)          # overwrites part.0 / part.1 in place
+            q2 = rt.dx.read_parquet(path2, calculate_divisions=True, **reader)
+            run.count(("rewrite-inplace", str(reader)))
+            got = try_(lambda: (len(q2), int(q2.x.sum().compute()), len(q2.loc[1005:1010].compute()), q2.divisions[0]))
+            if got[0] == "raise" or got[1][:3] != (40, int(b2.x.sum()), 6) or got[1][3] != 1000:
+                run.violation("re-reading a dataset rewritten in place (%s) still shows the old plan: (len, sum, len(loc[1005:1010]), first division) = %s, expected (40, %d, 6, 1000); first read was %s" % (
+                    reader or "fsspec", got[1], int(b2.x.sum()), obs1), {"kind": "rewrite-inplace", "reader": str(reader)})
     finally:
         import shutil
         shutil.rmtree(tmp, ignore_errors=True)
